@@ -113,7 +113,12 @@ pub(super) fn kept_gradient_check() {
 pub(super) fn release_check(variant: u8) {
     let a = mk(&[2], sym_vec(2, sym_val)).tracked();
     let b = mk(&[2], sym_vec(2, sym_val)).tracked();
-    if variant == 4 {
+    if variant == 5 {
+        // dot product of two vectors, default seed (a unit adjoint)
+        let e = Array::matmul((&a, false), (&b, false), None);
+        e.backward(None);
+        assert!(Rc::strong_count(&a.values) >= 2, "the graph holds the leaf while results are alive");
+    } else if variant == 4 {
         // a result whose derivative can hand an all-zero adjoint to the node below it (inactive ReLU units)
         let e = (&a * &b).relu();
         e.backward(None);
